@@ -51,7 +51,7 @@ const INVALID = ['{"customElementPatterns":["("]}', '{"customElementPatterns":["
 const NI_ATTRS = ['id', 'bident', 'clsS', 'clsD', 'styO', 'onClick1', 'onClick2', 'sp1', 'spObj', 'on', 'nativeOn', 'key', 'ref', 'xlink'];
 const NI_EXTRA = { onNs: 'on:click={h1}', nativeOnNs: 'nativeOn:x={h2}', vmodel: 'v-model={mv}', vfoo: 'v-foo={x}', vslots: 'v-slots={{ foo: h2 }}' };
 const NI_CHILDREN = { elDir: '<p v-show={c} />', inputModel: '<input v-model={mv} />', compDir: '<B v-foo={x} />', text: 'a', bx: '{x}', call: '{f()}', el: '<b/>', arrow: '{() => [x]}', objlit: '{{ default: () => [x] }}', comp: '<B>{y}</B>', icon: '<i-icon/>', spread: '{...xs}', member: '{o.p}' };
-const NI_HOSTS = ['div', 'Comp', 'iicon', 'memberFoo'];
+const NI_HOSTS = ['div', 'Comp', 'iicon', 'memberFoo', 'IiconNoLeak'];
 const attrSrc = (k) => (NI_EXTRA[k] ? NI_EXTRA[k] : E.ATTRS[k].src);
 const attrName = (k) => (NI_EXTRA[k] ? k : E.ATTRS[k].src.split(/[=\s{]/)[0]);
 const VECTORS = [...product([[false, true], [false, true], [true, false], [true, false], [false, true], [false, true]])].map(([transformOn, optimize, mergeProps, enableObjectSlots, resolveType, pattern]) => ({ transformOn, optimize, mergeProps, enableObjectSlots, resolveType, pattern }));
@@ -75,7 +75,7 @@ function features(c) {
   const names = c.at.map(attrName);
   const f = { transformOn: names.includes('on') || names.includes('nativeOn') };
   f.mergeProps = c.at.some((k) => k === 'sp1' || k === 'spObj') || names.some((n, i) => names.indexOf(n) !== i) || (f.transformOn);
-  const component = c.host === 'Comp' || c.host === 'iicon' || c.host === 'memberFoo'; // a member tag is never a custom element: patterns must not touch it
+  const component = c.host === 'Comp' || c.host === 'iicon' || c.host === 'memberFoo' || c.host === 'IiconNoLeak'; // `I-icon` matches no pattern (the inline flag of the first one ends with it) // a member tag is never a custom element: patterns must not touch it
   // the option governs components whose sole child is an identifier or a call (here: on the host or on a nested component)
   f.enableObjectSlots = (component && c.ch.length === 1 && ['bx', 'call'].includes(c.ch[0])) || c.ch.includes('comp');
   f.pattern = c.host === 'iicon' || c.ch.includes('icon');
@@ -87,7 +87,7 @@ function niSrc(c) {
   const jsx = E.renderJsx(c.host === 'iicon' ? 'iicon' : c.host, c.at.map(attrSrc), c.ch.map((k) => NI_CHILDREN[k]));
   return E.PRELUDE + `__out.mk = () => (${jsx});\n`;
 }
-const vecOpts = (v) => JSON.stringify(Object.assign({ transformOn: v.transformOn, optimize: v.optimize, mergeProps: v.mergeProps, enableObjectSlots: v.enableObjectSlots, resolveType: v.resolveType }, v.pattern ? { customElementPatterns: ['^i-', '^foo'] } : {}));
+const vecOpts = (v) => JSON.stringify(Object.assign({ transformOn: v.transformOn, optimize: v.optimize, mergeProps: v.mergeProps, enableObjectSlots: v.enableObjectSlots, resolveType: v.resolveType }, v.pattern ? { customElementPatterns: ['(?i)^zz-', '^i-', '^foo'] } : {}));
 
 function requests(c) {
   if (c.sp === 'D') {
